@@ -62,7 +62,9 @@ def attach_invariant():
 # keys whose lower-case form and case-folded form differ, or whose upper / lower forms change length (walks only)
 UNICODE_KEYS = ["Straße", "STRASSE", "strasse", "µm", "μm", "ΜM", "ſ", "S", "s", "ς", "Σ", "σ", "ﬁ", "FI", "fi", "İ", "i̇", "I", "ı", "Ünï", "ünï",
                 # keys shaped like the hidden bookkeeping keys, in other letter cases
-                "__TYPE__", "__type__", "__Type__", "__Note__", "__NOTE__", "__x__", "_A_", "__a"]
+                "__TYPE__", "__type__", "__Type__", "__Note__", "__NOTE__", "__x__", "_A_", "__a",
+                # keywords that are stored as lists WITHOUT being object lists (a missing one is created like any other key)
+                "processing", "PROCESSING", "include", "formatoption", "compfilter", "points", "pattern", "projection", "metadata", "config"]
 
 
 def ops(keys=None, extra=True):
